@@ -316,7 +316,7 @@ def concrete_playback(prop, h, tier_cfg):
     flags = h["flags"].split() if h["flags"] else []
     cmd = ["cargo", "kani", "--features", feature_of(h["module"]), "--target-dir", kani_target_dir(),
            "--output-format", "terse", "-Z", "unstable-options", "--harness-timeout",
-           "%ds" % tier_cfg["timeout"], "-Z", "concrete-playback", "--concrete-playback=print",
+           "%ds" % (4 * tier_cfg["timeout"]), "-Z", "concrete-playback", "--concrete-playback=print",
            # without this CBMC's formula slicing can drop the nondet assignments from the trace and
            # Kani then prints a playback test with no concrete values
            "--no-slice-formula",
@@ -324,8 +324,10 @@ def concrete_playback(prop, h, tier_cfg):
     if h["stubs"]:
         cmd += ["-Z", "stubbing"]
     try:
+        # the un-sliced trace of a large harness needs far more memory than the verification run
+        # (kani-driver holds it in memory): 45 GB cap, one playback at a time
         p = subprocess.run(cmd, cwd=KANI_DIR, env=ENV, stdout=subprocess.PIPE, stderr=subprocess.STDOUT,
-                           preexec_fn=set_limits(tier_cfg["mem_kb"]), timeout=tier_cfg["timeout"] + 600)
+                           preexec_fn=set_limits(45_000_000), timeout=4 * tier_cfg["timeout"] + 900)
         text = p.stdout.decode(errors="replace")
     except subprocess.TimeoutExpired:
         return []
